@@ -59,7 +59,7 @@ where
     // (2) what is verified: the combined check equals the reference relations
     let j3 = crate::scen_c03::job_c03::<C>(shape, seed, curve);
     // (3) how challenges are derived: transcript schedule, labels, encodings
-    let j6 = crate::scen_c06::job_c06::<C>(shape, seed, curve);
+    let j6 = crate::scen_c06::job_c06_mode::<C>(shape, seed, curve, true);
     for (tag, j) in [("messages", j9), ("relations", j3), ("schedule", j6)] {
         for s in j.structural {
             job.check(&format!("{}: {}", tag, s.name), s.ok, s.detail);
